@@ -66,11 +66,14 @@ fn lz_structured(rng: &mut Rng, target: usize, alphabet: u64) -> Vec<u8> {
 struct Out {
     lines: Vec<String>,
     n: usize,
+    /// compress ops emitted for every generated input (c10/c13: C08/C09 clauses, b10/b13: C10 bounds)
+    ops: Vec<&'static str>,
 }
 impl Out {
     fn compress(&mut self, period: usize, data: &[u8]) {
-        self.one("c10", period, data);
-        self.one("c13", period, data);
+        for op in self.ops.clone() {
+            self.one(op, period, data);
+        }
     }
     fn one(&mut self, op: &str, period: usize, data: &[u8]) {
         self.lines.push(format!("lz.{:06} {} {} {}", self.n, op, period, hex(data)));
@@ -96,7 +99,7 @@ fn exhaustive(out: &mut Out, alphabet: u8, max_len: usize) {
     }
 }
 
-fn gen_compress(out: &mut Out, rng: &mut Rng, thorough: bool) {
+fn gen_compress(out: &mut Out, rng: &mut Rng, thorough: bool, scale: usize) {
     // the empty input and tiny inputs
     out.compress(0, &[]);
     // exhaustive small alphabets
@@ -104,21 +107,21 @@ fn gen_compress(out: &mut Out, rng: &mut Rng, thorough: bool) {
         exhaustive(out, 2, 14);
         exhaustive(out, 3, 9);
     } else {
-        exhaustive(out, 2, 10);
-        exhaustive(out, 3, 6);
+        exhaustive(out, 2, 10 + scale.min(2));
+        exhaustive(out, 3, 6 + scale.min(4) / 2);
     }
     // runs: lengths around the 8-token, 16/17/18, 272/273 and 4096 boundaries (+2: the first two bytes are literals)
     for base in [1usize, 2, 3, 4, 5, 8, 9, 10, 16, 17, 18, 19, 20, 21, 22, 34, 35, 36, 37, 38, 272, 273, 274, 275, 276, 277, 4096, 4097, 4098, 4099, 4100, 4101] {
         let b = rng.next() as u8;
         out.compress(1, &vec![b; base]);
     }
-    let run_extra = if thorough { 60 } else { 6 };
+    let run_extra = if thorough { 60 } else { 6 * scale };
     for _ in 0..run_extra {
         let n = rng.range(1, if thorough { 70000 } else { 20000 }) as usize;
         out.compress(1, &vec![rng.next() as u8; n]);
     }
     // runs followed by / preceded by noise, so that the flag group ends at different places
-    for k in 0..(if thorough { 64 } else { 24 }) {
+    for k in 0..(if thorough { 64 } else { 24 * scale }) {
         let mut v = rng.bytes(k % 9);
         let b = rng.next() as u8;
         v.extend(std::iter::repeat(b).take(*rng.pick(&LEN_CLASSES) + 2));
@@ -129,12 +132,12 @@ fn gen_compress(out: &mut Out, rng: &mut Rng, thorough: bool) {
     for n in [1usize, 2, 3, 7, 8, 9, 15, 16, 17, 63, 64, 65, 100, 1000] {
         out.compress(0, &rng.bytes(n));
     }
-    out.compress(0, &rng.bytes(if thorough { 20000 } else { 5000 }));
+    out.compress(0, &rng.bytes(if thorough { 20000 } else { 8000 }));
     // low entropy random data (many short and medium matches at all distances)
-    let le = if thorough { 40 } else { 8 };
+    let le = if thorough { 40 } else { 8 * scale };
     for _ in 0..le {
         let k = rng.range(2, 5);
-        let n = rng.range(20, if thorough { 12000 } else { 3000 }) as usize;
+        let n = rng.range(20, if thorough { 12000 } else { 6000 }) as usize;
         out.compress(0, &low_entropy(rng, n, k));
     }
     // Fibonacci words (self-similar)
@@ -148,12 +151,23 @@ fn gen_compress(out: &mut Out, rng: &mut Rng, thorough: bool) {
         out.compress(0, &fib_word(6765, 1, 2));
     }
     // LZ-structured data with boundary distances and lengths
-    let ls = if thorough { 150 } else { 14 };
+    let ls = if thorough { 150 } else { 14 * scale };
     for i in 0..ls {
-        let target = if thorough { rng.range(10, 60000) } else { rng.range(10, 9000) } as usize;
+        let target = if thorough { rng.range(10, 60000) } else { rng.range(10, 20000) } as usize;
         let alpha = *rng.pick(&[2u64, 4, 16, 256]);
         let d = lz_structured(rng, target, alpha);
         out.compress(0, &d);
+    }
+    if thorough {
+        // a few large inputs
+        let big = lz_structured(rng, 300_000, 16);
+        out.compress(0, &big);
+        let big = rng.bytes(150_000);
+        out.compress(0, &big);
+        let big = low_entropy(rng, 100_000, 2);
+        out.compress(0, &big);
+        let big = lz_structured(rng, 150_000, 2);
+        out.compress(0, &big);
     }
     // far repeats: a random block of d bytes followed by its own prefix (match exactly at distance d)
     for d in [4093usize, 4094, 4095, 4096, 4097, 4098] {
@@ -170,22 +184,21 @@ fn gen_compress(out: &mut Out, rng: &mut Rng, thorough: bool) {
     }
 }
 
-fn gen_periodic(out: &mut Out, rng: &mut Rng, thorough: bool) {
+fn gen_periodic(out: &mut Out, rng: &mut Rng, thorough: bool, few: bool) {
     let mut periods: Vec<usize> = Vec::new();
-    if thorough {
+    if thorough && !few {
         periods.extend(1..=4096);
     } else {
         periods.extend([1usize, 2, 3, 4, 8, 16, 17, 18, 19, 20, 36, 255, 256, 257, 272, 273]);
-        for _ in 0..16 {
+        let (small, mid) = if few { (4, 1) } else if thorough { (200, 40) } else { (24, 4) };
+        for _ in 0..small {
             periods.push(rng.range(5, 600) as usize);
         }
-        for _ in 0..3 {
+        for _ in 0..mid {
             periods.push(rng.range(600, 4090) as usize);
         }
-        // window edge: a rotating subset so that every seed pays for a few expensive cases only
-        let edge = [4094usize, 4095, 4096];
-        periods.push(edge[(rng.below(3)) as usize]);
-        periods.push(4096);
+        // window edge
+        periods.extend([4094usize, 4095, 4096]);
     }
     for &p in &periods {
         let kind = rng.below(3);
@@ -198,11 +211,18 @@ fn gen_periodic(out: &mut Out, rng: &mut Rng, thorough: bool) {
                 v
             }
         };
-        let long = if thorough { 20000 } else if p > 600 { 3 * p + 100 } else { 6000 };
-        let lens: Vec<usize> = if thorough || p <= 600 {
-            vec![p + 1, 2 * p, 3 * p + 7, long]
+        let long = if thorough { 20000 } else { 6000 };
+        let lens: Vec<usize> = if p <= 600 {
+            if few {
+                vec![p + 1, *rng.pick(&[2 * p, 3 * p + 7, long])]
+            } else {
+                vec![p + 1, 2 * p, 3 * p + 7, long]
+            }
+        } else if thorough && !few && p % 64 == 0 {
+            vec![p + 1, 2 * p, 3 * p + 7, 20000]
         } else {
-            vec![*rng.pick(&[p + 1, 2 * p, 3 * p + 7, long])]
+            // the expensive ones: one length that reaches well past the first period
+            vec![*rng.pick(&[2 * p, 2 * p + 300, 3 * p + 7])]
         };
         for n in lens {
             out.compress(p, &periodic(&pattern, n));
@@ -349,9 +369,9 @@ fn wrap13(rng: &mut Rng, s: &[u8]) -> Vec<u8> {
     w
 }
 
-fn gen_decode(out: &mut Out, rng: &mut Rng, thorough: bool) {
+fn gen_decode(out: &mut Out, rng: &mut Rng, thorough: bool, scale: usize) {
     // conforming streams
-    let nstreams = if thorough { 3000 } else { 260 };
+    let nstreams = if thorough { 3000 } else { 400 * scale };
     for i in 0..nstreams {
         let ext = rng.chance(1, 2);
         let ntoks = match rng.below(5) {
@@ -382,7 +402,7 @@ fn gen_decode(out: &mut Out, rng: &mut Rng, thorough: bool) {
         out.dec(if n % 2 == 0 { "d13" } else { "f13" }, &s);
     }
     // malformed: every truncation point and single-byte corruptions of small streams
-    let nmal = if thorough { 300 } else { 36 };
+    let nmal = if thorough { 300 } else { 36 * scale };
     for _ in 0..nmal {
         let ext = rng.chance(1, 2);
         let ntoks = rng.range(1, 14) as usize;
@@ -424,6 +444,24 @@ fn gen_decode(out: &mut Out, rng: &mut Rng, thorough: bool) {
             out.dec(op, &if wrapped { wrap13(rng, &s) } else { s });
         }
     }
+    // unknown type bytes: conforming streams whose type byte is replaced by every other value
+    let ntype = if thorough { 12 } else { 3 * scale };
+    for k in 0..ntype {
+        let ext = k % 2 == 1;
+        let ntoks = rng.range(0, 12) as usize;
+        let toks = gen_tokens(rng, ext, ntoks, false);
+        let n = expand(&toks).len();
+        let s = encode(ext, n, &toks, rng.next() as u8);
+        for t in 0..=255u8 {
+            let mut c = s.clone();
+            c[0] = t;
+            match (k + t as usize) % 3 {
+                0 => out.dec("d10", &c),
+                1 => out.dec("d13", &c),
+                _ => out.dec("d13", &wrap13(rng, &c)),
+            }
+        }
+    }
     // D12 witness and friends
     out.dec("d10", &[0x10, 0x04, 0, 0, 0x80, 0x00, 0x05]);
     out.dec("d13", &[0x10, 0x04, 0, 0, 0x80, 0x00, 0x05]);
@@ -431,7 +469,7 @@ fn gen_decode(out: &mut Out, rng: &mut Rng, thorough: bool) {
     out.dec("d13", &[]);
     out.dec("d10", &[]);
     // random bytes
-    let nrand = if thorough { 20000 } else { 1500 };
+    let nrand = if thorough { 20000 } else { 1500 * scale };
     for _ in 0..nrand {
         let n = rng.range(0, 40) as usize;
         let mut s = rng.bytes(n);
@@ -477,13 +515,54 @@ fn code_parity(v: &[u8]) -> bool {
     v.iter().fold(0u32, |a, b| a.wrapping_mul(31).wrapping_add(*b as u32)) % 2 == 0
 }
 
+/// The four properties share this family.  The orchestrator passes the output path
+/// `work/<ID>/lz.<profile>.cases.txt`; the property id in it selects the part of the stream (and the
+/// oracle clauses, through the op names) that belongs to that property.  Without an id: everything.
+fn property_from_args() -> Option<&'static str> {
+    for a in std::env::args() {
+        for id in ["C08", "C09", "C10", "C11"] {
+            if a.contains(&format!("/{}/", id)) {
+                return Some(id);
+            }
+        }
+    }
+    None
+}
+
 pub fn gen(seed: u64, tier: &str) -> Vec<String> {
+    gen_for(property_from_args(), seed, tier)
+}
+
+pub fn gen_for(pid: Option<&str>, seed: u64, tier: &str) -> Vec<String> {
     let mut rng = Rng::new(seed ^ 0x4c5a_0000);
     let thorough = tier == "thorough";
-    let mut out = Out { lines: Vec::new(), n: 0 };
-    gen_compress(&mut out, &mut rng, thorough);
-    gen_periodic(&mut out, &mut rng, thorough);
-    gen_decode(&mut out, &mut rng, thorough);
+    let mut out = Out { lines: Vec::new(), n: 0, ops: Vec::new() };
+    match pid {
+        Some("C08") => {
+            out.ops = vec!["c10"];
+            gen_compress(&mut out, &mut rng, thorough, 6);
+            gen_periodic(&mut out, &mut rng, thorough, true);
+        }
+        Some("C09") => {
+            out.ops = vec!["c13"];
+            gen_compress(&mut out, &mut rng, thorough, 3);
+            gen_periodic(&mut out, &mut rng, thorough, true);
+        }
+        Some("C10") => {
+            out.ops = vec!["b10", "b13"];
+            gen_compress(&mut out, &mut rng, thorough, 3);
+            gen_periodic(&mut out, &mut rng, thorough, false);
+        }
+        Some("C11") => {
+            gen_decode(&mut out, &mut rng, thorough, 6);
+        }
+        _ => {
+            out.ops = vec!["c10", "c13", "b10", "b13"];
+            gen_compress(&mut out, &mut rng, thorough, 1);
+            gen_periodic(&mut out, &mut rng, thorough, true);
+            gen_decode(&mut out, &mut rng, thorough, 1);
+        }
+    }
     out.lines
 }
 
@@ -528,9 +607,9 @@ pub fn run_line(_st: &mut super::State, line: &str) -> String {
     let f: Vec<&str> = line.split(' ').collect();
     let id = f[0];
     let out = match f[1] {
-        "c10" | "c13" => {
+        "c10" | "c13" | "b10" | "b13" => {
             let data = unhex(f[3]);
-            let is13 = f[1] == "c13";
+            let is13 = f[1] == "c13" || f[1] == "b13";
             crate::alloc::max_request_reset();
             let r = no_panic(|| {
                 if is13 {
